@@ -351,6 +351,18 @@ def run_model(requests: list[dict], timeout=1200) -> list[dict]:
     return out
 
 
+_bp_prefix_cache: dict = {}
+
+
+def model_bp_prefix(out) -> str:
+    """where `simgenotype --out <out>` puts its breakpoints (without the .bp), according to the Lean model (OutPrefix.bpPrefix,
+    theorem C19.breakpoints_prefix_of_out); one driver call per distinct name"""
+    out = str(out)
+    if out not in _bp_prefix_cache:
+        _bp_prefix_cache[out] = run_model([{"op": "bpPrefix", "out": out}])[0]["prefix"]
+    return _bp_prefix_cache[out]
+
+
 # --------------------------------------------------------------------------------------------
 # implementation side helpers
 # --------------------------------------------------------------------------------------------
